@@ -286,7 +286,9 @@ def m_len(x):
     return _len(x)
 
 
-def m_str(x='', *a):
+def m_str(x='', *a, **k):
+    if k:
+        a = a + tuple(k[n] for n in ('encoding', 'errors') if n in k) if 'encoding' in k else (('utf-8', k['errors']) if not a else a + (k['errors'],))
     if a:
         # str(bytes, encoding, errors)
         if _isinstance(x, CStr) and x.is_bytes:
